@@ -46,13 +46,13 @@ theorem decOpt_u64_spec {c : Bool} {bs : Bytes} {v : Nat} {rest : Bytes}
 theorem decTfhd'_encTfhd (x : Tfhd) (rest : Bytes) (h : x.Wf) :
     decTfhd' (encTfhd x ++ rest) = some (x, rest) := by
   obtain ⟨h1, h2, h3, h4, h5, h6, h7, h8⟩ := h
-  simp [decTfhd', encTfhd, List.append_assoc, decU8_encU8 _ _ h1, decU24_encU24 _ _ h2,
+  simp only [decTfhd', encTfhd, List.append_assoc, decU8_encU8 _ _ h1, decU24_encU24 _ _ h2,
     decU32_encU32 _ _ h3, decOpt_encOpt_u64 _ _ _ h4, decOpt_encOpt_u32 _ _ _ h5,
-    decOpt_encOpt_u32 _ _ _ h6, decOpt_encOpt_u32 _ _ _ h7, decOpt_encOpt_u32 _ _ _ h8]
+    decOpt_encOpt_u32 _ _ _ h6, decOpt_encOpt_u32 _ _ _ h7, decOpt_encOpt_u32 _ _ _ h8, andThen_some]
 
 theorem decTfhd'_spec {bs : Bytes} {x : Tfhd} {rest : Bytes} (h : decTfhd' bs = some (x, rest)) :
     x.Wf ∧ encTfhd x ++ rest = bs := by
-  simp only [decTfhd', Option.bind_eq_bind, Option.bind_eq_some_iff, Prod.exists] at h
+  simp only [decTfhd', andThen_eq_some_iff] at h
   obtain ⟨v, b1, h1, f, b2, h2, t, b3, h3, a, b4, h4, b, b5, h5, c, b6, h6, d, b7, h7,
     e, b8, h8, h9⟩ := h
   simp only [Option.some.injEq, Prod.mk.injEq] at h9
@@ -149,13 +149,13 @@ theorem decTrunSample_encTrunSample (flags version : Nat) (s : TrunSample) (rest
     (h : s.Wf flags version) :
     decTrunSample flags version (encTrunSample flags version s ++ rest) = some (s, rest) := by
   obtain ⟨h1, h2, h3, h4⟩ := h
-  simp [decTrunSample, encTrunSample, List.append_assoc, decOpt_encOpt_u32 _ _ _ h1,
-    decOpt_encOpt_u32 _ _ _ h2, decOpt_encOpt_u32 _ _ _ h3, decOptI_encOptI_cto _ _ _ _ h4]
+  simp only [decTrunSample, encTrunSample, List.append_assoc, decOpt_encOpt_u32 _ _ _ h1,
+    decOpt_encOpt_u32 _ _ _ h2, decOpt_encOpt_u32 _ _ _ h3, decOptI_encOptI_cto _ _ _ _ h4, andThen_some]
 
 theorem decTrunSample_spec {flags version : Nat} {bs : Bytes} {s : TrunSample} {rest : Bytes}
     (h : decTrunSample flags version bs = some (s, rest)) :
     s.Wf flags version ∧ encTrunSample flags version s ++ rest = bs := by
-  simp only [decTrunSample, Option.bind_eq_bind, Option.bind_eq_some_iff, Prod.exists] at h
+  simp only [decTrunSample, andThen_eq_some_iff] at h
   obtain ⟨a, b1, h1, b, b2, h2, c, b3, h3, d, b4, h4, h5⟩ := h
   simp only [Option.some.injEq, Prod.mk.injEq] at h5
   obtain ⟨rfl, rfl⟩ := h5
@@ -173,12 +173,12 @@ theorem decTrun'_encTrun (x : Trun) (rest : Bytes) (h : x.Wf) :
   have hm := decMany_encMany (encTrunSample x.flags x.version) (decTrunSample x.flags x.version)
     x.samples rest (fun a ha r => decTrunSample_encTrunSample _ _ a r (h7 a ha))
   rw [← h4] at hm
-  simp [decTrun', encTrun, List.append_assoc, decU8_encU8 _ _ h1, decU24_encU24 _ _ h2,
-    decU32_encU32 _ _ h3, decOptI_encOptI_i32 _ _ _ h5, decOpt_encOpt_u32 _ _ _ h6, hm]
+  simp only [decTrun', encTrun, List.append_assoc, decU8_encU8 _ _ h1, decU24_encU24 _ _ h2,
+    decU32_encU32 _ _ h3, decOptI_encOptI_i32 _ _ _ h5, decOpt_encOpt_u32 _ _ _ h6, hm, andThen_some]
 
 theorem decTrun'_spec {bs : Bytes} {x : Trun} {rest : Bytes} (h : decTrun' bs = some (x, rest)) :
     x.Wf ∧ encTrun x ++ rest = bs := by
-  simp only [decTrun', Option.bind_eq_bind, Option.bind_eq_some_iff, Prod.exists] at h
+  simp only [decTrun', andThen_eq_some_iff] at h
   obtain ⟨v, b1, h1, f, b2, h2, n, b3, h3, o, b4, h4, g, b5, h5, ss, b6, h6, h7⟩ := h
   simp only [Option.some.injEq, Prod.mk.injEq] at h7
   obtain ⟨rfl, rfl⟩ := h7
@@ -247,14 +247,14 @@ theorem decSaizTable_spec {dflt : Nat} {bs : Bytes} {count : Nat} {sizes : List 
 theorem decSaiz'_encSaiz (x : Saiz) (rest : Bytes) (h : x.Wf) :
     decSaiz' (encSaiz x ++ rest) = some (x, rest) := by
   obtain ⟨h1, h2, h3, h4, h5, h6, h7, h8⟩ := h
-  simp [decSaiz', encSaiz, List.append_assoc, decU8_encU8 _ _ h1, decU24_encU24 _ _ h2,
+  simp only [decSaiz', encSaiz, List.append_assoc, decU8_encU8 _ _ h1, decU24_encU24 _ _ h2,
     decOpt_encOpt_u32 _ _ _ h3, decOpt_encOpt_u32 _ _ _ h4, decU8_encU8 _ _ h5,
-    decSaizTable_encSaizTable _ _ _ _ h6 h7 h8]
+    decSaizTable_encSaizTable _ _ _ _ h6 h7 h8, andThen_some]
 
 theorem decSaiz'_spec {bs : Bytes} {x : Saiz} {rest : Bytes} (h : decSaiz' bs = some (x, rest)) :
     x.Wf ∧ encSaiz x ++ rest = bs := by
-  simp only [decSaiz', Option.bind_eq_bind, Option.bind_eq_some_iff, Prod.exists] at h
-  obtain ⟨v, b1, h1, f, b2, h2, a, b3, h3, b, b4, h4, d, b5, h5, n, ss, b6, h6, h8⟩ := h
+  simp only [decSaiz', andThen_eq_some_iff] at h
+  obtain ⟨v, b1, h1, f, b2, h2, a, b3, h3, b, b4, h4, d, b5, h5, ⟨n, ss⟩, b6, h6, h8⟩ := h
   simp only [Option.some.injEq, Prod.mk.injEq] at h8
   obtain ⟨rfl, rfl⟩ := h8
   obtain ⟨h3a, h3b⟩ := decOpt_u32_spec h3
@@ -277,12 +277,12 @@ theorem decSaio'_encSaio (x : Saio) (rest : Bytes) (h : x.Wf) :
   obtain ⟨h1, h2, h3, h4, h5, h6⟩ := h
   have hm := decMany_encMany (encW (x.version != 0)) (decW (x.version != 0)) x.offsets rest
     (fun a ha r => decW_encW _ a r (h6 a ha))
-  simp [decSaio', encSaio, List.append_assoc, decU8_encU8 _ _ h1, decU24_encU24 _ _ h2,
-    decOpt_encOpt_u32 _ _ _ h3, decOpt_encOpt_u32 _ _ _ h4, decU32_encU32 _ _ h5, hm]
+  simp only [decSaio', encSaio, List.append_assoc, decU8_encU8 _ _ h1, decU24_encU24 _ _ h2,
+    decOpt_encOpt_u32 _ _ _ h3, decOpt_encOpt_u32 _ _ _ h4, decU32_encU32 _ _ h5, hm, andThen_some]
 
 theorem decSaio'_spec {bs : Bytes} {x : Saio} {rest : Bytes} (h : decSaio' bs = some (x, rest)) :
     x.Wf ∧ encSaio x ++ rest = bs := by
-  simp only [decSaio', Option.bind_eq_bind, Option.bind_eq_some_iff, Prod.exists] at h
+  simp only [decSaio', andThen_eq_some_iff] at h
   obtain ⟨v, b1, h1, f, b2, h2, a, b3, h3, b, b4, h4, n, b5, h5, os, b6, h6, h7⟩ := h
   simp only [Option.some.injEq, Prod.mk.injEq] at h7
   obtain ⟨rfl, rfl⟩ := h7
